@@ -19,6 +19,7 @@
     control shape `C07_pool_shape` says (`if[continue]`).
 -/
 import Cpf.Props.C07
+import Cpf.Lemmas.Walk
 
 namespace Cpf.Props.C08
 open Cpf.Scan.Merge Cpf.Props.C07
@@ -69,6 +70,42 @@ theorem C08_scan {F : Type} [DecidableEq F] (files : List F) (ok : F → Bool) (
     (f : F) (hf : f ∈ files) (hok : ok f = true) (i : Id) (hi : i ∈ ids (g f)) :
     lookup (merge (s.collected.map g)).nodes i = lookup (g f).nodes i :=
   Cpf.Props.C07.C08_scan_isolation files ok g hd w hw s hr hret f hf hok i hi
+
+/-! ### file discovery (`getFiles` over `filepath.Walk`, `Cpf.Scan.Walk`) -/
+
+open Cpf.Scan.Walk in
+/-- **C08/C03 (discovery)**: for every directory tree — entries whose `lstat` fails, directories that cannot be
+    listed, files of any name — `getFiles` returns exactly the `.java` files that can be reached through listable
+    directories, and reports an error only when the root itself cannot be inspected or listed. -/
+theorem C08_discovery (root : Path) (e : Ent) :
+    (getFiles root e).1 = (if e.lstatErr then [] else javaFiles root e) ∧
+    (getFiles root e).2 = (e.lstatErr || match e with | .dir _ _ readErr _ => readErr | _ => false) :=
+  ⟨getFiles_eq root e, getFiles_err root e⟩
+
+open Cpf.Scan.Walk in
+/-- **C08 (discovery is monotone)**: a file discovered in a directory is still discovered after any entries —
+    empty files, unreadable files, unlistable directories, anything — are added before, between or after its
+    siblings. -/
+theorem C08_discovery_monotone (path : Path) (pre post xs ys : List Ent) (f : Path)
+    (h : f ∈ javaFilesKids path (pre ++ post)) : f ∈ javaFilesKids path (xs ++ pre ++ ys ++ post) :=
+  javaFilesKids_insert path pre post xs ys f h
+
+/-- Regenerated: the decisions of the callback `getFiles` hands to `filepath.Walk` are the ones `getFilesCb` models:
+    the root's own error is returned, an unreadable directory below the root is skipped (SkipDir), any other
+    unreadable entry is passed over (nil), a regular entry is kept iff its extension is `.java`, and nothing else
+    returns anything but nil. -/
+theorem C08_walk_callback :
+    Cpf.Generated.getFilesCallback =
+      ["walk:filepath.Walk(directory)", "if:err != nil", "if:path == directory", "return:err",
+       "if:info != nil && info.IsDir()", "return:filepath.SkipDir", "return:nil",
+       "if:!info.IsDir()", "if:filepath.Ext(path) == \".java\"", "append:files<-path", "return:nil"] := by decide
+
+open Cpf.Scan.Walk in
+/-- Non-vacuity: an empty file, an entry whose lstat fails, an unlistable directory and a nested readable one. -/
+example :
+    getFiles ["p"] (.dir "p" false false [.file "A.java" false, .file "Gone.java" true, .file "notes.txt" false,
+                    .dir "locked" false true [.file "U.java" false], .dir "src" false false [.file "F.java" false, .file "x.JAVA" false]])
+      = ([["p", "A.java"], ["p", "src", "F.java"]], false) := by decide
 
 /-- Non-vacuity: F merged with a sibling and a faulty file. -/
 example :
